@@ -114,7 +114,8 @@ def schedule(rnd):
         if rnd.random() < 0.6: L.append(('EXDATE:' if timed else 'EXDATE;VALUE=DATE:') + ','.join(rrgen.dt_text(near(x)) for x in sorted(rnd.sample(range(0, 60), 3))))
         else: L.append('EXRULE:FREQ=WEEKLY;BYDAY=%s' % rrgen.WD[D.date(*ds[:3]).weekday()])
     if rnd.random() < 0.3:
-        L.append('DURATION:' + (rnd.choice(['PT1S', 'PT30S', 'PT5M', 'PT1H']) if timed else 'P1D'))
+        # (spans of whole weeks plus a time part, of days and hours, of more than a month among them)
+        L.append('DURATION:' + (rnd.choice(['PT1S', 'PT30S', 'PT5M', 'PT1H', 'P7DT2H', 'P1W', 'P14DT12H30M', 'P2DT3H4M5S', 'PT36H', 'P35DT1S', 'P1DT1H', 'PT10S', 'PT12M', 'P100D']) if timed else rnd.choice(['P1D', 'P7D', 'P2W', 'P10D'])))
     return L, {'kind': kind, 'rtext': ' | '.join(rt) if kind not in ('rdate', 'single') else '', 'tz': bool(tz), 'timed': timed}
 
 def enc(v):
